@@ -70,11 +70,7 @@ class Track(object):
             # The notes that are checked are the notes that are placed: a
             # list is voiced by the container, not read name by name
             note = NoteContainer(note)
-        if self.instrument != None and note is not None:
-            if not self.instrument.can_play_notes(note):
-                raise InstrumentRangeError(
-                    "Note '%s' is not in range of the instrument (%s)" % (note, self.instrument)
-                )
+        self.check_range(note)
         if duration == None:
             duration = 4
 
@@ -93,6 +89,16 @@ class Track(object):
             self.bars.append(new_bar)
             return True
         return False
+
+    def check_range(self, note):
+        """Raise an InstrumentRangeError if an Instrument is attached to the
+        Track and the note (Note, string or NoteContainer) is not within its
+        range; rests (None) are always fine."""
+        if self.instrument != None and note is not None:
+            if not self.instrument.can_play_notes(note):
+                raise InstrumentRangeError(
+                    "Note '%s' is not in range of the instrument (%s)" % (note, self.instrument)
+                )
 
     def get_notes(self):
         """Return an iterator that iterates through every bar in the this
